@@ -138,60 +138,57 @@ fn which(d: &D, recs: &[D]) -> Option<usize> {
     recs.iter().position(|r| r == d)
 }
 
-fn do_iter(rd: &mut AnyReader, take: Option<usize>, recs: &[D]) -> IterObs {
+/// Drains an iterator of (dump, row tag) items into an observation, stopping after `take`
+/// items (or at a cap well above the number of records).
+fn drain(it: &mut dyn Iterator<Item = Result<(D, Option<Option<usize>>), String>>, take: Option<usize>, recs: &[D]) -> IterObs {
     let mut obs = IterObs { items: vec![], ended: false, rows: vec![] };
     let cap = N + 3;
-    match rd {
-        AnyReader::Shape(r) => {
-            let mut it = r.iter_shapes();
-            loop {
-                if let Some(j) = take {
-                    if obs.items.len() >= j {
-                        break;
-                    }
-                }
-                if obs.items.len() >= cap {
-                    break;
-                }
-                match it.next() {
-                    None => {
-                        obs.ended = true;
-                        break;
-                    }
-                    Some(Ok(s)) => obs.items.push(Ok(which(&s.d(), recs))),
-                    Some(Err(e)) => obs.items.push(Err(err_class(&e))),
-                }
+    loop {
+        if let Some(j) = take {
+            if obs.items.len() >= j {
+                break;
             }
         }
-        AnyReader::Complete(r) => {
-            let mut it = r.iter_shapes_and_records();
-            loop {
-                if let Some(j) = take {
-                    if obs.items.len() >= j {
-                        break;
-                    }
-                }
-                if obs.items.len() >= cap {
-                    break;
-                }
-                match it.next() {
-                    None => {
-                        obs.ended = true;
-                        break;
-                    }
-                    Some(Ok((s, row))) => {
-                        obs.items.push(Ok(which(&s.d(), recs)));
-                        obs.rows.push(row_index(&row));
-                    }
-                    Some(Err(e)) => {
-                        obs.items.push(Err(err_class(&e)));
-                        obs.rows.push(None);
-                    }
+        if obs.items.len() >= cap {
+            break;
+        }
+        match it.next() {
+            None => {
+                obs.ended = true;
+                break;
+            }
+            Some(Ok((d, row))) => {
+                obs.items.push(Ok(which(&d, recs)));
+                if let Some(r) = row {
+                    obs.rows.push(r);
                 }
             }
+            Some(Err(e)) => obs.items.push(Err(e)),
         }
     }
     obs
+}
+
+/// One iteration call; `typed` = Some(code) uses the `*_as::<T>` variants of the API.
+fn do_iter(rd: &mut AnyReader, take: Option<usize>, recs: &[D], typed: Option<i32>) -> IterObs {
+    let e = |x: Error| err_class(&x);
+    match rd {
+        AnyReader::Shape(r) => match typed {
+            None => drain(&mut r.iter_shapes().map(|x| x.map(|s| (s.d(), None)).map_err(e)), take, recs),
+            Some(t) => for_type!(t, T => drain(&mut r.iter_shapes_as::<T>().map(|x| x.map(|s| (s.d(), None)).map_err(e)), take, recs)),
+        },
+        AnyReader::Complete(r) => {
+            let mut obs = match typed {
+                None => drain(&mut r.iter_shapes_and_records().map(|x| x.map(|(s, row)| (s.d(), Some(row_index(&row)))).map_err(e)), take, recs),
+                Some(t) => for_type!(t, T => drain(&mut r.iter_shapes_and_records_as::<T, dbase::Record>().map(|x| x.map(|(s, row)| (s.d(), Some(row_index(&row)))).map_err(e)), take, recs)),
+            };
+            // an Err item has no row: keep rows aligned with items for the report
+            while obs.rows.len() < obs.items.len() {
+                obs.rows.push(None);
+            }
+            obs
+        }
+    }
 }
 
 fn obs_str(o: &IterObs) -> String {
@@ -213,7 +210,7 @@ fn obs_str(o: &IterObs) -> String {
 }
 
 /// Runs one word; returns Some((failing call index, origin, what)) on the first refutation.
-fn run_word(kind: Kind, f: &Files, word: &[L], rep: &mut Report) -> Option<(usize, Origin, String)> {
+fn run_word(kind: Kind, f: &Files, word: &[L], typed: Option<i32>, rep: &mut Report) -> Option<(usize, Origin, String)> {
     let mut rd = open(kind, f);
     let mut allowed: BTreeSet<usize> = [0].into_iter().collect();
     let mut origin = Origin::Fresh;
@@ -235,14 +232,17 @@ fn run_word(kind: Kind, f: &Files, word: &[L], rep: &mut Report) -> Option<(usiz
                     AnyReader::Shape(r) => r,
                     AnyReader::Complete(_) => unreachable!("harness: nth on the complete reader"),
                 };
-                let got = r.read_nth_shape(i);
+                let got: Option<Result<D, Error>> = match typed {
+                    None => r.read_nth_shape(i).map(|x| x.map(|s| s.d())),
+                    Some(t) => for_type!(t, T => r.read_nth_shape_as::<T>(i).map(|x| x.map(|s| s.d()))),
+                };
                 rep.count("random_accesses_observed", 1);
-                let ok = if i < N { matches!(&got, Some(Ok(s)) if s.d() == f.recs[i]) } else { got.is_none() };
+                let ok = if i < N { matches!(&got, Some(Ok(d)) if *d == f.recs[i]) } else { got.is_none() };
                 if !ok {
                     let what = match got {
                         None => "None".to_string(),
                         Some(Err(e)) => format!("Err({})", err_class(&e)),
-                        Some(Ok(s)) => format!("record {:?}", which(&s.d(), &f.recs)),
+                        Some(Ok(d)) => format!("record {:?}", which(&d, &f.recs)),
                     };
                     return Some((idx, origin, format!("read_nth_shape({}) returned {}", i, what)));
                 }
@@ -264,7 +264,7 @@ fn run_word(kind: Kind, f: &Files, word: &[L], rep: &mut Report) -> Option<(usiz
             }
             L::Iter(_) | L::IterAll => {
                 let take = if let L::Iter(j) = *l { Some(j) } else { None };
-                let obs = do_iter(&mut rd, take, &f.recs);
+                let obs = do_iter(&mut rd, take, &f.recs, typed);
                 rep.count("iterations_observed", 1);
                 let mut matched: BTreeSet<usize> = BTreeSet::new();
                 for &s in &allowed {
@@ -341,14 +341,23 @@ fn words(alpha: &[L], max_len: usize) -> Vec<Vec<L>> {
 }
 
 pub fn run(ctx: &Ctx) -> Report {
-    let configs: Vec<(Kind, bool, usize)> = if cfg!(miri) {
-        vec![(Kind::Index, false, 2), (Kind::NoIndex, false, 3), (Kind::Complete, false, 2)]
+    // (reader kind, equal record sizes, word length bound, typed API variants)
+    let configs: Vec<(Kind, bool, usize, bool)> = if cfg!(miri) {
+        vec![(Kind::Index, false, 2, false), (Kind::NoIndex, false, 3, true), (Kind::Complete, false, 2, false), (Kind::Index, true, 2, true)]
     } else {
         let (li, ln, lc) = (ctx.pick(4, 6), ctx.pick(6, 10), ctx.pick(4, 6));
-        vec![(Kind::Index, false, li), (Kind::Index, true, li), (Kind::NoIndex, false, ln), (Kind::NoIndex, true, ln), (Kind::Complete, false, lc), (Kind::Complete, true, lc)]
+        let mut v = vec![];
+        for typed in [false, true] {
+            // the typed variants (`*_as::<T>`) run one letter shorter in the thorough tier
+            let cut = if typed && ctx.thorough { 1 } else { 0 };
+            v.extend_from_slice(&[(Kind::Index, false, li - cut, typed), (Kind::Index, true, li - cut, typed), (Kind::NoIndex, false, ln - cut, typed), (Kind::NoIndex, true, ln - cut, typed), (Kind::Complete, false, lc - cut, typed), (Kind::Complete, true, lc - cut, typed)]);
+        }
+        v
     };
     let mut total = Report::default();
-    for (ci, (kind, equal, max_len)) in configs.iter().enumerate() {
+    for (ci, (kind, equal, max_len, typed_api)) in configs.iter().enumerate() {
+        // the files hold Point records (equal sizes) or Polyline records (different sizes)
+        let typed: Option<i32> = if *typed_api { Some(if *equal { 1 } else { 3 }) } else { None };
         let f = make_files(ctx.seed, *equal);
         let ws = words(&alphabet(*kind), *max_len);
         let kname = match kind {
@@ -367,9 +376,9 @@ pub fn run(ctx: &Ctx) -> Report {
                     continue;
                 }
                 rep.eval();
-                rep.class(&format!("{} reader, {} record sizes, words <= {}", kname, if *equal { "equal" } else { "different" }, max_len));
+                rep.class(&format!("{} reader, {} record sizes, {} API, words <= {}", kname, if *equal { "equal" } else { "different" }, if *typed_api { "typed (*_as::<T>)" } else { "generic" }, max_len));
                 rep.nontrivial(&case);
-                match panicmon::catch(|| run_word(*kind, &f, w, rep)) {
+                match panicmon::catch(|| run_word(*kind, &f, w, typed, rep)) {
                     Err(p) => rep.violation(&format!("{}/panic", kname), &case, J::obj(vec![("history", J::s(word_str(w))), ("panic", J::s(p.class()))])),
                     Ok(None) => {}
                     Ok(Some((idx, origin, what))) => {
@@ -380,7 +389,7 @@ pub fn run(ctx: &Ctx) -> Report {
                             L::Count => "count",
                         };
                         rep.violation(
-                            &format!("{}/{}/{}", kname, origin_str(origin), call),
+                            &format!("{}{}/{}/{}", kname, if *typed_api { "(typed)" } else { "" }, origin_str(origin), call),
                             &case,
                             J::obj(vec![
                                 ("reader", J::s(kname)),
